@@ -30,6 +30,12 @@ DecStim(b, label) == [k |-> "dec", bytes |-> b, val |-> NoneV, label |-> label]
 WellFormed(d, id, vs) == {v \in vs : EncodeType(d, id, v).faults = {}}
 
 (* byte strings derived from reference encodings of the boundary values *)
+(* single-fault mutants of the default encoding of every descendant X of P (sizes, counts, fixed fields, flags and *)
+(* the fields fixed by constraints forced to other values), to be read through the ancestor P                       *)
+DescMutants(d, sub) ==
+  UNION {{[bytes |-> m.bytes, label |-> <<"descmut", X>> \o m.label] : m \in SemanticMutants(d, X, DefaultVal(d, X))}
+           : X \in sub}
+
 DecStimuli(d, id) ==
   LET vs == WellFormed(d, id, ValSet(d, id) \cup PresenceSet(d, id))
       base == DefaultVal(d, id)
@@ -63,16 +69,19 @@ StimuliFor(j) ==
              encs == UNION {{EncodeType(d, X, v).bytes : v \in WellFormed(d, X, ValSet(d, X))} : X \in sub}
          IN {[k |-> m, bytes |-> b, val |-> NoneV, label |-> <<"descendant">>] : b \in encs}
             \cup {[k |-> m, bytes |-> s.bytes, val |-> NoneV, label |-> s.label] : s \in DecStimuli(d, P)}
+            \cup {[k |-> m, bytes |-> s.bytes, val |-> NoneV, label |-> s.label] : s \in DescMutants(d, sub)}
     [] m = "javaparse" ->
          LET sub == Descendants(d, id, 6)
              encs == UNION {{EncodeType(d, X, v).bytes : v \in WellFormed(d, X, ValSet(d, X))} : X \in sub}
          IN {[k |-> "javaparse", bytes |-> b, val |-> NoneV, label |-> <<"descendant">>] : b \in encs}
             \cup {[k |-> "javaparse", bytes |-> s.bytes, val |-> NoneV, label |-> s.label] : s \in DecStimuli(d, id)}
+            \cup {[k |-> "javaparse", bytes |-> s.bytes, val |-> NoneV, label |-> s.label] : s \in DescMutants(d, sub)}
     [] m = "pyparse" ->
          LET sub == Descendants(d, id, 6)
              encs == UNION {{EncodeType(d, X, v).bytes : v \in WellFormed(d, X, ValSet(d, X))} : X \in sub}
          IN {[k |-> "pyparse", bytes |-> b, val |-> NoneV, label |-> <<"descendant">>] : b \in encs}
             \cup {[k |-> "pyparse", bytes |-> s.bytes, val |-> NoneV, label |-> s.label] : s \in DecStimuli(d, id)}
+            \cup {[k |-> "pyparse", bytes |-> s.bytes, val |-> NoneV, label |-> s.label] : s \in DescMutants(d, sub)}
     [] m = "up" ->
          {[k |-> "up", bytes |-> <<>>, val |-> v, label |-> <<"valset">>] : v \in WellFormed(d, id, ValSet(d, id))}
     [] m = "enum" ->
